@@ -1,3 +1,3 @@
 SPECIFICATION Spec
 CHECK_DEADLOCK FALSE
-INVARIANTS TypeOK Agree Emit
+INVARIANTS TypeOK Agree Emit InliningThm
